@@ -15,7 +15,7 @@ View == st
 
 InitState == [written |-> 0, finAt |-> NONE, pending |-> {}, pendingFin |-> FALSE,
               acked |-> {}, ackedFin |-> FALSE, highest |-> 0,
-              reset |-> FALSE, resetPending |-> FALSE, resetEmitted |-> FALSE,
+              reset |-> FALSE, resetPending |-> FALSE, resetInFlight |-> 0,
               resetAcked |-> FALSE, finished |-> FALSE, bufferEmpty |-> TRUE,
               outstanding |-> {}]
 
@@ -83,15 +83,20 @@ ResetF(s) ==
           ELSE [s EXCEPT !.reset = TRUE, !.resetPending = TRUE, !.bufferEmpty = TRUE],
    out |-> NoOut]
 
-GetResetFrameOk(s) == s.reset
+(* The environment (the connection) asks for a RESET_STREAM frame only while
+   one is pending and reports the fate of a frame only for a frame that was
+   emitted (on_reset_delivery is registered as the delivery handler of the
+   packet that carries it); resetInFlight is the environment's count of
+   emitted frames whose fate is still unknown. *)
+GetResetFrameOk(s) == s.reset /\ s.resetPending
 GetResetFrameF(s) ==
-  [st |-> [s EXCEPT !.resetPending = FALSE, !.resetEmitted = TRUE],
+  [st |-> [s EXCEPT !.resetPending = FALSE, !.resetInFlight = @ + 1],
    out |-> [k |-> "ResetFrame", finalSize |-> s.highest]]
 
-OnResetDeliveryOk(s) == s.reset /\ s.resetEmitted
+OnResetDeliveryOk(s) == s.resetInFlight > 0
 OnResetDeliveryF(s, isAck) ==
-  [st |-> IF isAck THEN [s EXCEPT !.finished = TRUE, !.resetAcked = TRUE]
-                   ELSE [s EXCEPT !.resetPending = TRUE],
+  [st |-> IF isAck THEN [s EXCEPT !.resetInFlight = @ - 1, !.finished = TRUE, !.resetAcked = TRUE]
+                   ELSE [s EXCEPT !.resetInFlight = @ - 1, !.resetPending = TRUE],
    out |-> NoOut]
 
 Apply(r) == st' = r.st /\ out' = r.out
@@ -128,7 +133,12 @@ Shape(s) == /\ s.highest <= s.written
             /\ s.acked \subseteq 0..s.written-1
             /\ (s.finAt # NONE => s.finAt = s.written)
             /\ \A f \in s.outstanding : f[1] <= f[2] /\ f[2] <= s.highest
-StateOk(s) == NothingDropped(s) /\ QuietAfterReset(s) /\ Completion(s) /\ Shape(s)
+\* a reset is pending, in flight (once), or acknowledged: it is never dropped
+\* and never in flight twice
+ResetTracked(s) == /\ s.resetInFlight \in 0..1
+                   /\ (s.reset <=> (s.resetPending \/ s.resetInFlight = 1 \/ s.resetAcked))
+                   /\ ~(s.resetPending /\ s.resetInFlight = 1)
+StateOk(s) == NothingDropped(s) /\ QuietAfterReset(s) /\ Completion(s) /\ Shape(s) /\ ResetTracked(s)
 TypeOk == StateOk(st)
 \* emitted frames carry exactly the written bytes for their offsets
 FrameBytes == [][out'.k = "Frame" =>
